@@ -23,7 +23,8 @@
                                                        |   C12_authenticated_call (request + @authenticated composed)
    6 after which all blocked requests proceed with     | full for a login that yields usable credentials:
      fresh credentials                                 |   C12_report_waits, C12_blocked_progress,
-                                                       |   C12_all_blocked_resume, C12_resume_fresh,
+                                                       |   C12_all_blocked_resume, C12_recheck_again (no end-of-cycle
+                                                       |   error, also when the item expired in flight), C12_resume_fresh,
                                                        |   C12_reauth_restarts_cycle;
                                                        |   refuted after a barren login:
                                                        |   C12_recovery_after_barren_login_refuted (finding F1203)
@@ -48,7 +49,9 @@
                                                        |   the quantifier ("re-iterable") and not modelled
    quantifier: number of concurrent requests on a 401  | the Vault theorems hold for every trace, i.e. any number of
                                                        |   requesters and any interleaving of their critical sections
-   not covered: credentials expiry (_expire); Retry-After outside integer seconds (int(float(x)) truncates,
+   credentials expiry (_expire, post-yield re-check of _items): C12_expire_effect, C12_select_unexpired,
+   C12_recheck_again, C12_all_blocked_resume (requesters waiting in _expire).
+   not covered: Retry-After outside integer seconds (int(float(x)) truncates,
    HTTP-date raises ValueError); aiohttp/SSL internals; the `errors=` narrowing of throttled (default used).
    --------------------------------------------------------------------------------------------------- *)
 From Coq Require Import ZArith List Bool Arith.
@@ -208,7 +211,7 @@ Print Assumptions C12_reauth_restarts_cycle.
    failing on the same item invalidate one identity, hence cause one re-authentication. *)
 Theorem C12_single_reauth : forall src tr s,
   Vault.run (init src) tr = Some s ->
-  (wakes s <= length (invalidated s) + barren s + e0_of src)%nat /\ NoDup (invalidated s).
+  (wakes s <= length (invalidated s) + barren s + expirations s + e0_of src)%nat /\ NoDup (invalidated s).
 Proof. exact single_reauth. Qed.
 Print Assumptions C12_single_reauth.
 
@@ -221,10 +224,10 @@ Proof. exact select_fresh. Qed.
 Print Assumptions C12_resume_fresh.
 
 (* a requester blocked in invalidate() cannot select; it resumes only on a ready, non-empty vault *)
-Theorem C12_blocked_until_ready : forall s r,
-  rget r s = RBlocked ->
-  (forall k id, Vault.step s (Select r k id) = None) /\
-  (forall s', Vault.step s (Wake r WResumed) = Some s' -> ready s = true /\ cur s <> [] /\ rget r s' = RIdle).
+Theorem C12_blocked_until_ready : forall s r k it,
+  rget r s = RBlocked k it ->
+  (forall k' id, Vault.step s (Select r k' id) = None) /\
+  (forall s', Vault.step s (Wake r WResumed) = Some s' -> ready s = true /\ cur s <> [] /\ rget r s' = RAfter k it).
 Proof. exact blocked_until_ready. Qed.
 Print Assumptions C12_blocked_until_ready.
 
@@ -232,22 +235,52 @@ Print Assumptions C12_blocked_until_ready.
    fails on the spot); with something left it goes on at once *)
 Theorem C12_report_waits : forall s r b s',
   Vault.step s (Invalidate r b) = Some s' ->
-  (cur s' = [] -> b = true /\ rget r s' = RBlocked /\ ready s' = false) /\
-  (cur s' <> [] -> b = false /\ rget r s' = RIdle).
+  exists k it, rget r s = RHold k it /\
+  (cur s' = [] -> b = true /\ rget r s' = RBlocked k it /\ ready s' = false) /\
+  (cur s' <> [] -> b = false /\ rget r s' = RAfter k it).
 Proof. exact report_waits. Qed.
 Print Assumptions C12_report_waits.
 
 (* progress of EVERY blocked requester: nothing the others or the authenticator do unblocks or fails it;
    once the vault is ready and non-empty it can resume, can only resume (no LoginError), and the fresh
    items are still there for it to select *)
-Theorem C12_blocked_progress : forall s r,
-  rget r s = RBlocked ->
-  (forall l s', Vault.step s l = Some s' -> (forall o, l <> Wake r o) -> rget r s' = RBlocked) /\
+Theorem C12_blocked_progress : forall s r k it,
+  rget r s = RBlocked k it ->
+  (forall l s', Vault.step s l = Some s' -> (forall o, l <> Wake r o) -> rget r s' = RBlocked k it) /\
   (ready s = true -> cur s <> [] ->
-     (exists s', Vault.step s (Wake r WResumed) = Some s' /\ rget r s' = RIdle /\ cur s' = cur s /\ ready s' = true) /\
+     (exists s', Vault.step s (Wake r WResumed) = Some s' /\ rget r s' = RAfter k it /\ cur s' = cur s /\ ready s' = true) /\
      (forall o s', Vault.step s (Wake r o) = Some s' -> o = WResumed)).
 Proof. exact blocked_progress. Qed.
 Print Assumptions C12_blocked_progress.
+
+(* the post-yield re-check of _items never ends the iteration for a requester that comes back from
+   invalidate(): on EVERY trace (item invalidated by itself or another requester, expired and dropped on
+   behalf of another requester, replaced under the same key by a re-authentication) it goes round again
+   and is free to select the fresh credentials — no "end of the authentication cycle" error *)
+Theorem C12_recheck_again : forall src tr s r k it,
+  Vault.run (init src) tr = Some s -> rget r s = RAfter k it ->
+  (exists s', Vault.step s (Recheck r true) = Some s' /\ rget r s' = RIdle /\ cur s' = cur s /\ ready s' = ready s) /\
+  (forall again s', Vault.step s (Recheck r again) = Some s' -> again = true).
+Proof. exact recheck_again. Qed.
+Print Assumptions C12_recheck_again.
+
+(* _expire(now): exactly the items with expiration <= now leave the pool; nothing is remembered as
+   invalid; the requester waits iff that emptied the vault (then the re-authentication is due) *)
+Theorem C12_expire_effect : forall s r now b s',
+  Vault.step s (Expire r now b) = Some s' ->
+  (forall k it, In (k, it) (cur s') <-> In (k, it) (cur s) /\ expired_at now it = false) /\
+  inv s' = inv s /\ invalidated s' = invalidated s /\ nextid s' = nextid s /\
+  (b = true -> cur s' = [] /\ cur s <> [] /\ ready s' = false /\ rget r s' = RExpWait) /\
+  (b = false -> ready s' = true /\ rget r s' = RIdle).
+Proof. exact expire_effect. Qed.
+Print Assumptions C12_expire_effect.
+
+(* what is selected right after _expire(now) is not expired at `now` *)
+Theorem C12_select_unexpired : forall s r now s1 k id s2,
+  Vault.step s (Expire r now false) = Some s1 -> Vault.step s1 (Select r k id) = Some s2 ->
+  exists it, rget r s2 = RHold k it /\ iid it = id /\ expired_at now it = false.
+Proof. exact select_unexpired. Qed.
+Print Assumptions C12_select_unexpired.
 
 (* whenever the vault is not ready the authenticator can move: start the login, or deliver its result *)
 Theorem C12_reauth_started : forall s,
@@ -257,15 +290,19 @@ Theorem C12_reauth_started : forall s,
 Proof. exact reauth_enabled. Qed.
 Print Assumptions C12_reauth_started.
 
-(* a login that yields at least one set of credentials not remembered as invalid releases EVERY blocked
-   requester: each is still there, can resume, can only resume (no LoginError), with the fresh items present *)
+(* a login that yields at least one set of credentials not remembered as invalid releases EVERY requester
+   blocked in invalidate() or in _expire(): each is still there, can resume, can only resume (no LoginError) *)
 Theorem C12_all_blocked_resume : forall s src s',
   Vault.step s (Populate src) = Some s' -> fertile src (inv s) ->
   ready s' = true /\ cur s' <> [] /\
-  forall r, rget r s = RBlocked ->
-    rget r s' = RBlocked /\
-    (exists s'', Vault.step s' (Wake r WResumed) = Some s'' /\ rget r s'' = RIdle /\ cur s'' = cur s' /\ ready s'' = true) /\
-    (forall o s'', Vault.step s' (Wake r o) = Some s'' -> o = WResumed).
+  (forall r k it, rget r s = RBlocked k it ->
+    rget r s' = RBlocked k it /\
+    (exists s'', Vault.step s' (Wake r WResumed) = Some s'' /\ rget r s'' = RAfter k it /\ cur s'' = cur s' /\ ready s'' = true) /\
+    (forall o s'', Vault.step s' (Wake r o) = Some s'' -> o = WResumed)) /\
+  (forall r, rget r s = RExpWait ->
+    rget r s' = RExpWait /\
+    (exists s'', Vault.step s' (WakeExp r WResumed) = Some s'' /\ rget r s'' = RIdle /\ cur s'' = cur s' /\ ready s'' = true) /\
+    (forall o s'', Vault.step s' (WakeExp r o) = Some s'' -> o = WResumed)).
 Proof. exact all_blocked_resume. Qed.
 Print Assumptions C12_all_blocked_resume.
 
@@ -288,9 +325,9 @@ Print Assumptions C12_no_reuse_of_invalid_refuted.
 (* "processing recovers once errors stop" is false after a login that yields nothing usable (F1203):
    a reachable state from which every request fails and no re-authentication is ever started again *)
 Theorem C12_recovery_after_barren_login_refuted :
-  exists s, Vault.run (init [(0%nat, 10, 0)]) barren_trace = Some s /\ Stuck s /\
+  exists s, Vault.run (init [(0%nat, 10, 0, None)]) barren_trace = Some s /\ Stuck s /\
     forall tr s', Vault.run s tr = Some s' ->
-      s' = s /\ Forall (fun l => exists r, l = SelectErr r) tr /\ Vault.step s' WakeEmpty = None.
+      Stuck s' /\ Forall fails_only tr /\ Vault.step s' WakeEmpty = None.
 Proof. exact recovery_after_barren_login_refuted. Qed.
 Print Assumptions C12_recovery_after_barren_login_refuted.
 
@@ -406,7 +443,7 @@ Example C12_nonvacuous_throttle : TInv [2; 4; 6] t0 O.
 Proof. exact (TInv_t0 [2; 4; 6]). Qed.
 
 Example C12_nonvacuous_vault :
-  match Vault.run (init [(0%nat, 10, 0)]) burst_trace with
+  match Vault.run (init [(0%nat, 10, 0, None)]) burst_trace with
   | Some s => (wakes s, invalidated s, cur_ids s, ready s)
   | None => (0%nat, [], [], false)
   end = (1%nat, [0%nat], [(0%nat, 1%nat)], true).
@@ -434,17 +471,30 @@ Proof. exact call_example. Qed.
 
 (* two requesters blocked on the same invalidated item while the login runs; a fertile Populate is enabled *)
 Example C12_nonvacuous_blocked :
-  exists s, Vault.run (init [(0%nat, 10, 0)]) blocked_trace = Some s /\
-    rget 1 s = RBlocked /\ rget 2 s = RBlocked /\ ready s = false /\ busy s = true /\
-    fertile [(0%nat, 11, 0)] (inv s) /\
-    exists s', Vault.step s (Populate [(0%nat, 11, 0)]) = Some s'.
+  exists s, Vault.run (init [(0%nat, 10, 0, None)]) blocked_trace = Some s /\
+    rget 1 s = RBlocked 0 item10 /\ rget 2 s = RBlocked 0 item10 /\ ready s = false /\ busy s = true /\
+    fertile [(0%nat, 11, 0, None)] (inv s) /\
+    exists s', Vault.step s (Populate [(0%nat, 11, 0, None)]) = Some s'.
 Proof. exact blocked_example. Qed.
 
 (* a reachable state with a current item: the fresh one can be selected, the invalidated one cannot *)
 Example C12_nonvacuous_current :
-  exists s it s', Vault.run (init [(0%nat, 10, 0)]) reuse_trace1 = Some s /\ lookupn 0 (cur s) = Some it /\
+  exists s it s', Vault.run (init [(0%nat, 10, 0, None)]) reuse_trace1 = Some s /\ lookupn 0 (cur s) = Some it /\
     Vault.step s (Select 1 0 1) = Some s' /\ Vault.step s (Select 1 0 0) = None.
 Proof. exact current_example. Qed.
+
+(* expiry while a request is in flight: requester 1 holds item 0 (expires at t=5); requester 2 enters at t=6,
+   _expire drops the item without remembering it, one re-authentication, requester 2 proceeds; requester 1
+   comes back with its 401, is sent round again (RAfter reachable) and gets the fresh item.  The trace in
+   which the iteration stops instead is rejected. *)
+Example C12_nonvacuous_expiry :
+  match Vault.run (init [(0%nat, 10, 0, Some 5)]) (expiry_trace true ++ [Expire 1 7 false; Select 1 0 1; Done 1; Done 2]) with
+  | Some s => (wakes s, invalidated s, map (fun x => inv_creds s x) [0%nat], cur_ids s, expirations s)
+  | None => (0%nat, [], [], [], 0%nat)
+  end = (1%nat, [], [[]], [(0%nat, 1%nat)], 1%nat) /\
+  Vault.run (init [(0%nat, 10, 0, Some 5)]) (expiry_trace false) = None /\
+  exists s it, Vault.run (init [(0%nat, 10, 0, Some 5)]) (removelast (expiry_trace true)) = Some s /\ rget 1 s = RAfter 0 it.
+Proof. exact expiry_example. Qed.
 
 (* a paused object: `until` set, one error counted; it runs when the pause is slept out, is skipped when woken *)
 Example C12_nonvacuous_paused :
